@@ -3,7 +3,8 @@
 // E: group G x tangent a (full alphabet of bind.hpp + zero + single-axis + three generic all-nonzero
 //    tangents) x block offset i0 in {0,1,Dof,7} x host size {exact,+3,+10} x host prefill pattern
 //    {published pattern shifted to the block, pattern + full diagonal, fully dense}, every stored entry of
-//    the host holding a distinct sentinel value, x the five routines.
+//    the host holding a distinct sentinel value, x the five routines.  Hessian hosts (n rows) additionally come
+//    with n^2, n(i0+Dof) (the documented minimum) and n^2+5 columns: the block stride is the row count.
 // O: (differential, as stated) every pattern entry of the designated block == dense routine, value-exact;
 //    every stored entry outside the block bitwise untouched; rows/cols/nonZeros/outer/inner arrays
 //    unchanged; isCompressed().  Stored entries inside the block but outside the published pattern (only
@@ -123,31 +124,18 @@ struct Host
   std::vector<int> code;  // per stored entry: -1 outside the block, else col-major index into the dense result
   std::vector<char> inpat;
   int i0 = 0, extra = 0, prefill = 0;
-  bool dup       = false;  // duplicate of another menu entry (i0 menu collision)
-  const char * cls = "";
+  int colvar = 0;    // Hessian hosts only: 0: n x n^2, 1: n x n(i0+Dof) (documented minimum), 2: n x (n^2+5)
+  bool dup   = false;  // duplicate of another menu entry (i0 menu collision / coinciding column variants)
+  std::string cls;
 };
 
-inline const char * host_class(int i0i, int ei, int pf)
-{
-  static std::vector<std::string> names = [] {
-    std::vector<std::string> v;
-    const char * o[] = {"i0=0", "i0=1", "i0=Dof", "i0=7"};
-    const char * e[] = {"exact", "+3", "+10"};
-    const char * p[] = {"pattern", "pattern+diag", "dense"};
-    for (int a = 0; a < 4; ++a)
-      for (int b = 0; b < 3; ++b)
-        for (int c = 0; c < 3; ++c) v.push_back(std::string("host:") + o[a] + "," + e[b] + "," + p[c]);
-    return v;
-  }();
-  return names[size_t((i0i * 3 + ei) * 3 + pf)].c_str();
-}
-
 /// D: Dof, K: kind, mask: stored entries of the published pattern (D x DC col-major)
-inline Host make_host(int D, int K, const std::vector<char> & mask, int i0, int extra, int prefill)
+inline Host make_host(int D, int K, const std::vector<char> & mask, int i0, int extra, int prefill, int colvar = 0)
 {
   const int DC            = K == K_D2EXP ? D * D : D;
   const Eigen::Index n    = K == K_AD ? D : i0 + D + extra;
-  const Eigen::Index rows = n, cols = K == K_D2EXP ? n * n : n;
+  const Eigen::Index rows = n;
+  const Eigen::Index cols = K != K_D2EXP ? n : (colvar == 0 ? n * n : (colvar == 1 ? n * (i0 + D) : n * n + 5));
   std::vector<int> blockidx(size_t(rows * cols), -1);
   std::vector<char> present(size_t(rows * cols), 0);
   size_t nblock = 0;
@@ -168,8 +156,8 @@ inline Host make_host(int D, int K, const std::vector<char> & mask, int i0, int 
   if (nblock != size_t(D) * size_t(DC)) mc::harness_error("C19: block size");
   if (prefill >= 1) {
     for (Eigen::Index i = 0; i < rows; ++i) {
-      present[size_t(i + i * rows)] = 1;                                 // main diagonal
-      if (K == K_D2EXP) present[size_t(i + (n * i + i) * rows)] = 1;     // d2 x_i / dx_i dx_i
+      present[size_t(i + i * rows)] = 1;                                                    // main diagonal
+      if (K == K_D2EXP && n * i + i < cols) present[size_t(i + (n * i + i) * rows)] = 1;  // d2 x_i / dx_i dx_i
     }
   }
   if (prefill == 2) std::fill(present.begin(), present.end(), 1);
@@ -195,6 +183,7 @@ inline Host make_host(int D, int K, const std::vector<char> & mask, int i0, int 
   H.i0      = i0;
   H.extra   = extra;
   H.prefill = prefill;
+  H.colvar  = colvar;
   return H;
 }
 
@@ -257,11 +246,17 @@ void routine_checks(const std::string & gname, const TanSet<G> & TS)
   const int ext[3]  = {0, 3, 10};
   for (int oi = 0; oi < (K == K_AD ? 1 : 4); ++oi)
     for (int ei = 0; ei < (K == K_AD ? 1 : 3); ++ei)
-      for (int pf = 0; pf < 3; ++pf) {
-        Host H = make_host(D, K, mask, offs[oi], ext[ei], pf);
-        H.cls  = host_class(oi, ei, pf);
+      for (int pf = 0; pf < 3; ++pf)
+       for (int cv = 0; cv < (K == K_D2EXP ? 3 : 1); ++cv) {
+        static const char * on[] = {"i0=0", "i0=1", "i0=Dof", "i0=7"};
+        static const char * en[] = {"exact", "+3", "+10"};
+        static const char * pn[] = {"pattern", "pattern+diag", "dense"};
+        static const char * cn[] = {"", ",cols=n^2", ",cols=n(i0+Dof)", ",cols=n^2+5"};
+        Host H = make_host(D, K, mask, offs[oi], ext[ei], pf, cv);
+        H.cls  = std::string("host:") + on[oi] + "," + en[ei] + "," + pn[pf] + cn[K == K_D2EXP ? cv + 1 : 0];
         for (int q = 0; q < oi; ++q)
           if (offs[q] == offs[oi]) H.dup = true;
+        if (cv == 1 && ext[ei] == 0) H.dup = true;  // n(i0+Dof) == n^2
         // the documented size preconditions of the routine hold for every host
         bool pre = H.sp.isCompressed() && H.sp.rows() >= H.i0 + D;
         if (K == K_DEXP) pre = pre && H.sp.cols() >= H.i0 + D;
@@ -272,7 +267,7 @@ void routine_checks(const std::string & gname, const TanSet<G> & TS)
       }
   {
     // host (i0=0, exact, pattern) is structurally the published pattern itself ("copy the pattern" usage)
-    const Host & H0 = hosts[0];
+    const Host & H0 = hosts[0];  // (i0=0, exact, pattern, n x n^2)
     bool same       = H0.sp.rows() == pat.rows() && H0.sp.cols() == pat.cols() && H0.sp.nonZeros() == pat.nonZeros();
     if (pat.isCompressed()) {  // (an uncompressed published pattern is reported by C19/pattern-objects)
       same = same && std::memcmp(H0.sp.outerIndexPtr(), pat.outerIndexPtr(), sizeof(int) * size_t(pat.cols() + 1)) == 0;
@@ -294,7 +289,8 @@ void routine_checks(const std::string & gname, const TanSet<G> & TS)
     c.param("i0", H.i0);
     c.param("extra", H.extra);
     c.param("prefill", H.prefill);
-    c.outcome(H.cls);
+    c.param("colvar", H.colvar);
+    c.outcome(H.cls.c_str());
     if (H.dup) c.trivial();
 
     Sp sp = H.sp;
